@@ -188,8 +188,18 @@ impl Monitor for AppCallMonitor {
                         Some((_, reply_from)) => {
                             self.n_sent += 1;
                             s.last = Some((*app, true));
-                            if let Some(a) = reply_from {
-                                s.outstanding = Some((*app, *a));
+                            // whether a reply is outstanding is read off the telegram on the wire
+                            // (R1), not taken from the stack's own classification of the service
+                            let wire_reply_from = {
+                                let bus = w.bus.borrow();
+                                p.txs.first().and_then(|x| bus.txs[*x].frame.as_ref().map(|f| (f.request_expecting_reply().is_some(), f.da()))).and_then(|(exp, da)| match (exp, da) {
+                                    (true, Some(a)) if a & 0x7F != 127 => Some(a & 0x7F),
+                                    _ => None,
+                                })
+                            };
+                            let _ = reply_from;
+                            if let Some(a) = wire_reply_from {
+                                s.outstanding = Some((*app, a));
                                 s.out_visit = s.visit;
                             }
                         }
